@@ -1,5 +1,6 @@
 import CnbVerif.Lemmas.Written
 import CnbVerif.Lemmas.BuilderSeq
+import CnbVerif.Lemmas.LayerFiles
 import CnbVerif.Spec.CnbSchemas
 /-!
 # C07 — written TOML decodes under an independent reader to the intended spec document
@@ -164,6 +165,39 @@ theorem layer_metadata_decodes_to_constructed (m : LayerMeta) :
   rw [h1] at h1'; cases h1'
   exact ⟨t, h1, h2, h2'⟩
 
+/-- **L1 (`layer_file_path_is_name_dot_toml`): the file libcnb uses for a layer is the one the CNB spec names.** For every
+layer name (any bytes: dots anywhere, several dots, a trailing dot, …) the file the layer code reads and writes is the name's
+bytes followed by `.toml` — the spec's `<layers>/<name>.toml` — and two layers have the same file exactly when they have the same
+name: no layer's document can land on another layer's path (`python3.11` never on `python3.toml`). -/
+theorem layer_file_path_is_name_dot_toml (a b : Bytes) :
+    layerFilePath a = a ++ [46, 116, 111, 109, 108] ∧ layerFilePath a = specLayerFile a ∧ (layerFilePath a = layerFilePath b ↔ a = b) :=
+  ⟨rfl, rfl, layerFilePath_inj⟩
+
+/-- **L2 (layer types and metadata at the layer's spec path).** For every sequence of layer constructions through the public
+layer APIs in one layers directory (`cached_layer` / `uncached_layer` with any types, followed or not by `write_metadata`; trait API
+`handle_layer` returning any metadata; any names, repeated or extending one another in any order) and every layer name, the
+document found at the path the CNB spec gives that layer holds exactly the types and the metadata table constructed under that
+name — nothing a construction under another name did shows there, and a name never used has no file. -/
+theorem layer_file_at_spec_path_holds_constructed (calls : List LayerCall) (name : Bytes) :
+    dirGet (layerSession calls) (specLayerFile name) = intendedLayer name none (calls.map toLayerOp) := by
+  rw [← (layer_file_path_is_name_dot_toml name name).2.1]
+  exact dirGet_foldl_layerStep calls [] name
+
+/-- **L3 (… and an independent reader recovers it).** The document at the layer's spec path is written as a tree which the
+specification's reader — and libcnb's own — decodes to the constructed layer types and metadata table. -/
+theorem layer_file_decodes_to_constructed (calls : List LayerCall) (name : Bytes) (m : LayerMeta)
+    (h : intendedLayer name none (calls.map toLayerOp) = some m) :
+    ∃ doc t, dirGet (layerSession calls) (specLayerFile name) = some doc ∧
+      encode (Gen.S.LayerContentMetadata .optionalTable) doc.toVal = some t ∧
+      decode Spec.Cnb.layerContentMetadata t = .ok m.toVal ∧
+      decode (Gen.S.LayerContentMetadata .optionalTable) t = .ok m.toVal := by
+  obtain ⟨t, h1, h2, h3⟩ := layer_metadata_decodes_to_constructed m
+  exact ⟨m, t, by rw [layer_file_at_spec_path_holds_constructed, h], h1, h2, h3⟩
+
+/-- the documents of a case are asked for in the order the specification lists the names: each once, in order of first use -/
+theorem layer_names_in_order_of_first_use (calls : List LayerCall) :
+    firstUses (calls.map LayerCall.name) = layerNames (calls.map toLayerOp) := firstUses_eq_layerNames calls
+
 /-- **M1 for store.toml**, incl. libcnb's own reader. -/
 theorem store_decodes_to_constructed (tbl : Table) :
     ∃ t, encode Gen.S.Store (storeVal tbl) = some t ∧ decode Spec.Cnb.storeToml t = .ok (storeVal tbl) ∧
@@ -234,5 +268,13 @@ example : launchSession [.call (.session "web" ["x"] []), .build,
 
 /-- `build()` first: the empty launch configuration -/
 example : launchSession [.build, .call (.slice ["a"])] = [⟨[], [], []⟩, ⟨[], [], [["a"]]⟩] := by rfl
+
+/-- `python3` (cached, metadata written), then `python3.11` through the trait API, then `python3` again without metadata:
+`python3.toml` holds the new types and the metadata kept, `python3.11.toml` its own document, `python3.12.toml` does not exist -/
+example : (layerFileAfter [.cached [112, 51] true false (some [("v", .int 1)]), .handle [112, 51, 46, 49, 49] ⟨false, true, false⟩ none,
+      .cached [112, 51] false true none] [112, 51],
+    layerFileAfter [.cached [112, 51] true false (some [("v", .int 1)]), .handle [112, 51, 46, 49, 49] ⟨false, true, false⟩ none] [112, 51, 46, 49, 49],
+    layerFileAfter [.cached [112, 51] true false none] [112, 51, 46, 49, 50]) =
+    (some ⟨some ⟨false, true, true⟩, some [("v", .int 1)]⟩, some ⟨some ⟨false, true, false⟩, none⟩, none) := by rfl
 
 end CnbVerif.C07
